@@ -360,6 +360,14 @@ func (p *Path) quoteBytes(bs []*Term) []*Term {
 		}
 		return p.constBytes(strconv.Quote(string(raw)))
 	}
+	if p.h != nil && p.h.QuoteApprox {
+		// harness opted out (//verif:quote approx): the text inside %q quotes is not
+		// the subject; render it without escapes instead of forking on every byte
+		p.note("fmt %q on symbolic text rendered without escapes (//verif:quote approx: the quoted text's content is outside the claim)")
+		out := []*Term{p.byteConst('"')}
+		out = append(out, bs...)
+		return append(out, p.byteConst('"'))
+	}
 	// symbolic content: strconv.Quote byte by byte; the class of every symbolic
 	// byte is decided by forking (quote, backslash, printable ASCII, the seven
 	// named control escapes, \xNN for the other ASCII control bytes). Symbolic
@@ -383,7 +391,11 @@ func (p *Path) quoteBytes(bs []*Term) []*Term {
 		case p.branch(p.byteInRange(b, 0x20, 0x7e), "quote-printable"):
 			out = append(out, b)
 		case p.branch(p.byteInRange(b, 0x80, 0xff), "quote-nonascii"):
-			p.abortf(abortOutOfBound, "fmt %%q on a symbolic non-ASCII byte (UTF-8 decoding of symbolic text is outside the bound)")
+			// rendered as strconv.Quote renders a byte that is not part of a valid
+			// UTF-8 sequence; symbolic bytes that do form a valid multi-byte rune
+			// would be copied (or \u-escaped) instead — recorded as an assumption
+			p.note("fmt %q: symbolic bytes >= 0x80 rendered as invalid UTF-8 (\\xNN); valid multi-byte runes inside quoted symbolic text are outside the claim")
+			out = append(out, p.byteConst('\\'), p.byteConst('x'), p.hexDigit(p.nibble(b, true), false), p.hexDigit(p.nibble(b, false), false))
 		default:
 			named := false
 			for _, pr := range [][2]byte{{7, 'a'}, {8, 'b'}, {9, 't'}, {10, 'n'}, {11, 'v'}, {12, 'f'}, {13, 'r'}} {
